@@ -151,3 +151,122 @@ pub fn sweep(
     }
     Ok(st)
 }
+
+// ---------------------------------------------------------------------------------------
+// normalised dump of "everything an editor can see" (C07: differential; C11/C12: expectations)
+
+use serde_json::{json, Value};
+
+fn sym_json(s: &DocumentSymbol) -> Value {
+    json!({
+        "name": s.name.to_string(),
+        "typ": s.typ.to_string(),
+        "kind": format!("{:?}", s.kind),
+        "range": [r2(s.range).0, r2(s.range).1],
+        "children": s.children.iter().map(sym_json).collect::<Vec<_>>(),
+    })
+}
+
+fn sorted(mut v: Vec<Value>) -> Value {
+    v.sort_by_key(|x| x.to_string());
+    Value::Array(v)
+}
+
+pub fn dump(ws: &Workspace, a: &Analysis) -> Value {
+    let mut out = serde_json::Map::new();
+    let diags = a.diagnostics();
+    let mut files: Vec<FileId> = diags.keys().copied().collect();
+    files.sort_by_key(|f| ws.fs.path_of(*f));
+    let path = |f: FileId| ws.fs.path_of(f).unwrap_or_else(|| format!("{f:?}"));
+    out.insert("root".into(), json!(path(ws.root)));
+    for f in files {
+        let mut fo = serde_json::Map::new();
+        let ds = diags.get(&f).cloned().unwrap_or_default();
+        fo.insert(
+            "diagnostics".into(),
+            sorted(ds.iter().map(|d| json!([path(d.location.file), r2(d.location.range).0, r2(d.location.range).1, d.message])).collect()),
+        );
+        fo.insert("symbols".into(), json!(a.document_symbol(f).map(|v| v.iter().map(sym_json).collect::<Vec<_>>())));
+        fo.insert(
+            "folding".into(),
+            json!(a.folding_range(f).map(|v| v.iter().map(|r| json!([r2(r.range).0, r2(r.range).1])).collect::<Vec<_>>())),
+        );
+        fo.insert(
+            "links".into(),
+            json!(a.document_link(f).map(|v| v.iter().map(|l| json!([r2(l.range).0, r2(l.range).1, path(l.target)])).collect::<Vec<_>>())),
+        );
+        if let Some(text) = ws.text_of(f) {
+            if !text.is_empty() {
+                fo.insert(
+                    "hints".into(),
+                    json!(a.inlay_hint(frange(f, 0, text.len())).map(|v| sorted(
+                        v.iter().map(|h| json!([u32::from(h.position), h.label, format!("{:?}", h.kind)])).collect()
+                    ))),
+                );
+            }
+            let mut at = serde_json::Map::new();
+            for (s, _e) in crate::ws::id_tokens_by_parse(text).into_iter().take(400) {
+                let p = pos(f, s);
+                let d = a.goto_definition(p).map(|d| json!([path(d.file), r2(d.range).0, r2(d.range).1]));
+                let r = a.references(p).map(|v| sorted(v.iter().map(|r| json!([path(r.file), r2(r.range).0, r2(r.range).1])).collect()));
+                let h = a.hover(p).map(|h| json!([h.signature, h.document]));
+                at.insert(format!("{s:06}"), json!({"def": d, "refs": r, "hover": h}));
+            }
+            fo.insert("at".into(), Value::Object(at));
+            let mut comp = serde_json::Map::new();
+            let offs = interesting_offsets(text, 0);
+            let stride = (offs.len() / 8).max(1);
+            for o in offs.iter().step_by(stride).take(9) {
+                for trig in [None, Some("!".to_string())] {
+                    let c = a.completion(pos(f, *o), trig.clone()).map(|v| {
+                        sorted(v.iter().map(|c| json!([c.label, c.insert_text_snippet, format!("{:?}", c.kind)])).collect())
+                    });
+                    comp.insert(format!("{o:06}{}", if trig.is_some() { "!" } else { "" }), json!(c));
+                }
+            }
+            fo.insert("completion".into(), Value::Object(comp));
+        }
+        out.insert(path(f), Value::Object(fo));
+    }
+    Value::Object(out)
+}
+
+/// first path at which two JSON values differ
+pub fn first_diff(a: &Value, b: &Value, path: &mut String) -> Option<String> {
+    match (a, b) {
+        (Value::Object(x), Value::Object(y)) => {
+            let keys: std::collections::BTreeSet<&String> = x.keys().chain(y.keys()).collect();
+            for k in keys {
+                match (x.get(k), y.get(k)) {
+                    (Some(u), Some(v)) => {
+                        let l = path.len();
+                        path.push('/');
+                        path.push_str(k);
+                        if let Some(d) = first_diff(u, v, path) {
+                            return Some(d);
+                        }
+                        path.truncate(l);
+                    }
+                    (u, v) => return Some(format!("{path}/{k}: {} vs {}", u.map(|x| x.to_string()).unwrap_or("<absent>".into()), v.map(|x| x.to_string()).unwrap_or("<absent>".into()))),
+                }
+            }
+            None
+        }
+        (Value::Array(x), Value::Array(y)) if x.len() == y.len() => {
+            for (i, (u, v)) in x.iter().zip(y).enumerate() {
+                let l = path.len();
+                path.push_str(&format!("[{i}]"));
+                if let Some(d) = first_diff(u, v, path) {
+                    return Some(d);
+                }
+                path.truncate(l);
+            }
+            None
+        }
+        _ if a == b => None,
+        _ => {
+            let t = |v: &Value| v.to_string().chars().take(300).collect::<String>();
+            Some(format!("{path}: {} vs {}", t(a), t(b)))
+        }
+    }
+}
